@@ -205,8 +205,9 @@ class ReplacementsBase(Contract):
 class ValueListReplacements(Contract):
     id = "C17.ValueListPlaceholderTransformation.placeholder_replacements"
     target = "sigma.processing.transformations.placeholder:ValueListPlaceholderTransformation.placeholder_replacements"
-    props = ("C17",)
-    cases = ("missing", "no_pipeline", "empty", "scalar", "list2", "bad_type")
+    props = ("C17", "C14", "C15")
+    cases = ("missing", "no_pipeline", "empty", "scalar", "list2", "bad_type", "scalar_after_history", "missing_after_history")
+    assumed = ["history cases: the same item resolved the same placeholder before, while it belonged to another pipeline (p1 + p2 hands the items to the new pipeline) with another value of the variable"]
 
     def setup(self, E):
         E.summaries["sigma.types:SigmaString"] = lambda I, so, a, k: SObj("SigmaStringOf", {"src": a[0]})
@@ -214,11 +215,18 @@ class ValueListReplacements(Contract):
     def args(self, I, case):
         T = I.E.index.lookup("sigma.processing.transformations.placeholder:ValueListPlaceholderTransformation")
         v0, v1 = I.fresh("v0", "str"), I.fresh("v1", "int")
-        vars_ = {"missing": {}, "empty": {"ph": []}, "scalar": {"ph": v0}, "list2": {"ph": [v0, v1]}, "bad_type": {"ph": [v0, None]}}.get(case, {})
+        vars_ = {"missing": {}, "empty": {"ph": []}, "scalar": {"ph": v0}, "list2": {"ph": [v0, v1]}, "bad_type": {"ph": [v0, None]}, "scalar_after_history": {"ph": v0}, "missing_after_history": {}}.get(case, {})
         pipe = None if case == "no_pipeline" else SObj("Pipeline", {"vars": vars_})
         me = SObj(T, {"_pipeline": pipe, "include": None, "exclude": None}, lazy=True)
         p = SObj(I.E.index.lookup("sigma.types:Placeholder"), {"name": "ph"})
-        return {"self": me, "args": [p], "case": case, "v": [v0, v1]}
+        return {"self": me, "args": [p], "case": case.replace("_after_history", ""), "v": [v0, v1], "history": case.endswith("_after_history"), "pipe": pipe}
+
+    def before(self, I, inp):
+        if inp["history"]:
+            me = inp["self"]
+            me.fields["_pipeline"] = SObj("Pipeline", {"vars": {"ph": [I.fresh("old_value", "str")]}})
+            I.call_function(I.E.index.lookup(self.target), me, [SObj(I.E.index.lookup("sigma.types:Placeholder"), {"name": "ph"})], {})
+            me.fields["_pipeline"] = inp["pipe"]
 
     def post(self, I, inp, r):
         c, case, v = I.ctx, inp["case"], inp["v"]
